@@ -111,6 +111,59 @@ Proof.
     + destruct H as [-> H]. split; [reflexivity|exact (proj1 H)].
 Qed.
 
+(* ---------- C02: the built-in effects are the map operations ---------- *)
+Theorem insert_effect_map w e loc c ev :
+  WInv w -> sm_get e (w_ents w) = Some loc ->
+  exists w', builtin_effect (KInsert c) ev loc w = ROk tt w' /\ WInv w' /\
+    abs w' e c = Some (ev_ser ev, ev_val ev) /\ (forall c', c' <> c -> abs w' e c' = abs w e c') /\
+    (forall k c', k <> e -> abs w' k c' = abs w k c') /\ same_dom (w_ents w) (w_ents w').
+Proof.
+  intros (Hst & Hg & H0) Hloc. destruct loc as [sai srow]. cbn [builtin_effect fst].
+  destruct (insert_effect_ok w e sai srow c (ev_ser ev, ev_val ev) Hst Hg Hloc) as (w' & E & Hst' & Hg' & Hc & Ho & Hk & Hmono).
+  unfold cval in E. exists w'. split; [exact E|]. split; [split; [exact Hst'|split; [exact Hg'|now apply Hmono]]|].
+  split; [exact Hc|]. split; [exact Ho|]. split; [exact Hk|].
+  pose proof Hst as (_ & Hl & _). destruct (Hl _ _ _ Hloc) as (sa & vals & Hsa & _).
+  destruct (traverse_insert_ok w sai sa c Hst Hg Hsa) as (d & w1 & Et & _ & _ & _ & Hents1 & _).
+  rewrite Et in E. cbn [rbind] in E. apply move_entity_dom in E. now rewrite Hents1 in E.
+Qed.
+
+Theorem remove_effect_map w e loc c ev :
+  WInv w -> sm_get e (w_ents w) = Some loc ->
+  exists w', builtin_effect (KRemove c) ev loc w = ROk tt w' /\ WInv w' /\
+    abs w' e c = None /\ (forall c', c' <> c -> abs w' e c' = abs w e c') /\
+    (forall k c', k <> e -> abs w' k c' = abs w k c') /\ same_dom (w_ents w) (w_ents w').
+Proof.
+  intros (Hst & Hg & H0) Hloc. destruct loc as [sai srow]. cbn [builtin_effect fst].
+  destruct (remove_effect_ok w e sai srow c Hst Hg Hloc) as (w' & E & Hst' & Hg' & Hc & Ho & Hk & Hmono).
+  exists w'. split; [exact E|]. split; [split; [exact Hst'|split; [exact Hg'|now apply Hmono]]|].
+  split; [exact Hc|]. split; [exact Ho|]. split; [exact Hk|].
+  pose proof Hst as (_ & Hl & _). destruct (Hl _ _ _ Hloc) as (sa & vals & Hsa & _).
+  destruct (traverse_remove_ok w sai sa c Hst Hg Hsa) as (d & w1 & Et & _ & _ & _ & Hents1 & _).
+  rewrite Et in E. cbn [rbind] in E. apply move_entity_dom in E. now rewrite Hents1 in E.
+Qed.
+
+Theorem despawn_effect_map w e loc ev :
+  WInv w -> sm_get e (w_ents w) = Some loc ->
+  match builtin_effect KDespawn ev loc w with
+  | ROk _ w' => WInv w' /\ sm_get e (w_ents w') = None /\
+                (forall k, k <> e -> sm_get k (w_ents w) <> None -> sm_get k (w_ents w') <> None /\ forall c, abs w' k c = abs w k c) /\
+                (forall k, k <> e -> sm_get k (w_ents w) = None -> forall c, abs w' k c = None)
+  | RFail f w' => f = FPanic 5 /\ ext_by_spawn w w'
+  end.
+Proof.
+  intros HW Hloc. cbn [builtin_effect]. pose proof (despawn_effect_ok w e loc HW Hloc) as H.
+  destruct (do (_, w2) <- spawn_all w; do (_, w3) <- remove_entity w2 loc; ROk tt (refresh_cursor w3)) as [[] w'|f w']; [|exact H].
+  destruct H as (A & B & C & D & _). auto.
+Qed.
+
+Theorem spawn_effect_map w ev loc :
+  WInv w ->
+  match builtin_effect KSpawn ev loc w with
+  | ROk _ w' => ext_by_spawn w w'
+  | RFail f w' => f = FPanic 5 /\ ext_by_spawn w w'
+  end.
+Proof. intros HW. cbn [builtin_effect]. now apply spawn_all_ok. Qed.
+
 (* global events never carry a targeted built-in meaning *)
 Definition GevKinds (w : world) : Prop :=
   forall i k info, get_by_index (w_gev w) i = Some (k, info) -> targeted_kind (e_kind info) = false.
@@ -451,4 +504,49 @@ Proof.
     + intros ai a Ha. unfold slab_get in Ha. cbn [sl_entries nget] in Ha. destruct (ai =? 0); [|discriminate]. inversion Ha; subst. constructor.
   - reflexivity.
   - intros i k info H. discriminate.
+Qed.
+
+(* ---------- every world reachable through the top-level calls ---------- *)
+(* the calls the differential driver makes on the extracted model (ocaml/driver.ml), except
+   remove_component (whose archetype removal is covered separately) *)
+Inductive top :=
+| TSpawn | TInsert (e : key) (ktag : N) | TRemove (e : key) (ktag : N) | TDespawn (e : key)
+| TSend (gtag : N) | TSendTo (e : key) (ttag : N)
+| TAddHandler (sh : hshape) | TRemoveHandler (k : key)
+| TAddComponent (tag : N) | TAddGlobal (tag : N) | TAddTargeted (tag : N)
+| TRemoveGlobal (k : key) | TRemoveTargeted (k : key).
+
+Definition run_top (beh : hinfo -> logent -> N -> script) (w : world) (o : top) : world :=
+  match o with
+  | TSpawn => res_world (op_spawn beh w)
+  | TInsert e k => res_world (op_insert beh e k w)
+  | TRemove e k => res_world (op_remove beh e k w)
+  | TDespawn e => res_world (op_despawn beh e w)
+  | TSend g => res_world (op_send beh g w)
+  | TSendTo e t => res_world (op_send_to beh e t w)
+  | TAddHandler sh => res_world (add_handler beh sh w)
+  | TRemoveHandler k => res_world (remove_handler beh k w)
+  | TAddComponent t => res_world (add_component beh t w)
+  | TAddGlobal t => res_world (add_global_event beh RFUEL t w)
+  | TAddTargeted t => res_world (add_targeted_event beh t w)
+  | TRemoveGlobal k => res_world (remove_global_event beh k w)
+  | TRemoveTargeted k => res_world (remove_targeted_event beh k w)
+  end.
+
+Lemma run_top_RInv beh w o : RInv w -> RInv (run_top beh w o).
+Proof.
+  intros HR. destruct o; cbn [run_top].
+  - now apply op_spawn_RInv. - now apply op_insert_RInv. - now apply op_remove_RInv. - now apply op_despawn_RInv.
+  - now apply op_send_RInv. - now apply op_send_to_RInv. - now apply add_handler_RInv. - now apply remove_handler_RInv.
+  - now apply add_component_RInv. - now apply add_global_event_RInv. - now apply add_targeted_event_RInv.
+  - now apply remove_global_event_RInv. - now apply remove_targeted_event_RInv.
+Qed.
+
+(* C17 / C02 / C12 on the model, for every handler behaviour, every sequence of calls (whether
+   they succeed, panic in a handler or run out of slots), every fuel and panic schedule:
+   the entity map and the archetype rows describe each other, every row has one value per
+   column, the archetype graph / by_components / slab free list are consistent *)
+Theorem reachable_RInv beh fuel p ops : RInv (fold_left (run_top beh) ops (world0 fuel p)).
+Proof.
+  apply fold_left_invariant; [apply RInv_world0|]. intros w o. apply run_top_RInv.
 Qed.
